@@ -468,10 +468,19 @@ def explore(part, nparts, maxruns, rnd):
         for (mx, mn) in (entry[3] if len(entry) > 3 else ((1, 0), (2, 0), (2, 1), (1, 1))):
             for policy in ("low", "high"):
                 combos.append((entry, mx, mn, policy))
+    variants = []
     for (entry, mx, mn, policy) in combos[part::nparts]:
+        released = sorted(set(op[1] for pr in entry[:2] for op in pr if op[0] == "release"))
+        if len(entry) > 2:
+            variants.append((entry, mx, mn, policy, sorted(entry[2])))
+        else:
+            # without further gate-blocked tasks (deterministic: what is found here is found at every seed), and with some
+            variants.append((entry, mx, mn, policy, released))
+            more = sorted(set(released) | set(t for t in (1, 2, 3) if rnd.random() < 0.35))
+            if more != released:
+                variants.append((entry, mx, mn, policy, more))
+    for (entry, mx, mn, policy, gated) in variants:
         progs = entry[:2]
-        released = sorted(set(op[1] for pr in progs for op in pr if op[0] == "release"))
-        gated = sorted(entry[2]) if len(entry) > 2 else sorted(set(released) | set(t for t in (1, 2, 3) if rnd.random() < 0.25))
         base, choices = planned_trace(mx, mn, gated, progs, {}, policy)
         out.append(base)
         plans_c, plans_w = [], []
